@@ -288,6 +288,23 @@ def polarity(stmts):
     return rec(stmts)
 
 
+def or_default(stmts):
+    """`if x: pass else: x = y`  ->  `x = x or y`"""
+    def rec(block):
+        out = []
+        for s in block:
+            _recurse_blocks(s, rec)
+            if isinstance(s, ast.If) and isinstance(s.test, ast.Name) and _is_pass(s.body) and len(s.orelse) == 1 and isinstance(s.orelse[0], ast.Assign) \
+                    and len(s.orelse[0].targets) == 1 and isinstance(s.orelse[0].targets[0], ast.Name) and s.orelse[0].targets[0].id == s.test.id:
+                new = ast.Assign(targets=[ast.Name(id=s.test.id, ctx=ast.Store())],
+                                 value=ast.BoolOp(op=ast.Or(), values=[ast.Name(id=s.test.id, ctx=ast.Load()), s.orelse[0].value]))
+                out.append(ast.copy_location(new, s))
+                continue
+            out.append(s)
+        return out
+    return rec(stmts)
+
+
 # ---------------------------------------------------------------------------------------
 # 5  nest tails
 def _terminates(block) -> bool:
@@ -553,6 +570,15 @@ class _ExprNorm(ast.NodeTransformer):
     def visit_Call(self, node):
         self.generic_visit(node)
         f = u(node.func)
+        # f(*(a, *b)) -> f(a, *b)
+        if any(isinstance(a, ast.Starred) and isinstance(a.value, (ast.Tuple, ast.List)) for a in node.args):
+            args = []
+            for a in node.args:
+                if isinstance(a, ast.Starred) and isinstance(a.value, (ast.Tuple, ast.List)):
+                    args += a.value.elts
+                else:
+                    args.append(a)
+            node.args = args
         # list(map(f, xs)) -> [f(x) for x in xs]
         if f == "list" and len(node.args) == 1 and not node.keywords and isinstance(node.args[0], ast.Call) and u(node.args[0].func) == "map" \
                 and len(node.args[0].args) == 2:
@@ -725,7 +751,12 @@ def subst_single_use(stmts):
             out.append(s)
             i += 1
         return out
-    return rec(stmts)
+    for _ in range(6):
+        before = sum(1 for s_ in stmts for _n in ast.walk(s_))
+        stmts = rec(stmts)
+        if sum(1 for s_ in stmts for _n in ast.walk(s_)) == before:
+            break
+    return stmts
 
 
 def _reads_at_top(s, name) -> bool:
@@ -959,6 +990,7 @@ class Canon:
         b = [s for s in b if not (isinstance(s, ast.FunctionDef) and s.name not in used)]
         b = self.call_layout(b, module, cls)
         b = polarity(b)
+        b = or_default(b)
         b = nest_tails(b)
         b = strip_tail_continue(b)
         b = norm.normalise_loops(b)
@@ -1014,6 +1046,9 @@ def _drop_dead_temps(stmts):
             if isinstance(s, (ast.Assign, ast.AnnAssign)) and s.value is not None:
                 t = s.targets[0] if isinstance(s, ast.Assign) and len(s.targets) == 1 else (s.target if isinstance(s, ast.AnnAssign) else None)
                 if isinstance(t, ast.Name) and reads(t.id) == 0 and is_pure_ext(s.value):
+                    continue
+                if isinstance(t, ast.Tuple) and all(isinstance(e, ast.Name) and reads(e.id) == 0 for e in t.elts) and is_pure_ext(s.value) \
+                        and isinstance(s.value, ast.Tuple):
                     continue
             _recurse_blocks(s, rec)
             for fld in ("body",):
